@@ -1,7 +1,7 @@
 (* C01 — Query results equal the declarative semantics of the query.
    Sem.v is the specification (what the query language defines); Exec.v is the transcription of
    execution.rs.  Only statements, `exact` proofs, Print Assumptions and examples live here. *)
-From TF Require Import Sem SemProofs Exec Run.
+From TF Require Import Sem SemProofs Exec Run Sim SimRec SimComp SimOut SimTop.
 Local Open Scope string_scope.
 
 (* ---- what the specification says, in the words of the language reference ---- *)
@@ -39,6 +39,52 @@ Print Assumptions C01_recurse_is_reachability.
    with `sem` on every generated case meanwhile):
      forall re g args q, wf_query q -> args_ok q args -> ty_indep g -> ~ Known q args ->
        rows_equiv (interpret re g args q) (Ok (sem re g args q))                                   *)
+
+
+(* ---- the engine model refines the specification: queries without @fold ----
+   Any nesting of plain / @optional / @recurse edges, coercions, every filter operator with variables
+   and tags, any dataset (as five oracles; neighbours must not depend on the static type named in the
+   call, which graph_of_dataset satisfies), any arguments: whenever the interpreter model returns rows
+   at all (panic-freedom is property C09), they are exactly the specification's rows, in the same
+   order, each row compared as a map name -> value. *)
+Theorem C01_engine_refines_spec_fold_free :
+  forall re g args q rows,
+    ty_indep g ->
+    edges_only (c_steps (q_comp q)) = true ->
+    interpret re g args q = Ok rows ->
+    Forall2 row_equiv rows (sem re g args q).
+Proof. intros re g args q rows Hi. exact (interpret_fold_free_spec re g args Hi q rows). Qed.
+Print Assumptions C01_engine_refines_spec_fold_free.
+
+(* the piggy-backing recursion rounds list the gated paths in depth-first pre-order (the crux) *)
+Theorem C01_recursion_rounds_are_dfs :
+  forall g origin_ty recursing_from endpoint_ty coerce_to e,
+    (forall v, g_nbrs g origin_ty (e_name e) (e_params e) v = g_nbrs g recursing_from (e_name e) (e_params e) v) ->
+    forall k first c v, active c = Some v -> piggyback c = None ->
+      mapM ensure_unsuspended (iterF g origin_ty recursing_from endpoint_ty coerce_to e (flags_of first k) [c]) =
+      Ok (map (fun u => set_active c (Some u))
+              (rec_from g k first origin_ty recursing_from endpoint_ty coerce_to (e_name e) (e_params e) v)).
+Proof. intros g o r ep co e H k first c v. exact (dfs g o r ep co e H k first c v). Qed.
+Print Assumptions C01_recursion_rounds_are_dfs.
+
+Theorem C01_datasets_are_type_independent : forall d, ty_indep (graph_of_dataset d).
+Proof. exact graph_of_dataset_ty_indep. Qed.
+Print Assumptions C01_datasets_are_type_independent.
+
+(* non-vacuity of the fold-free theorem: a concrete query with a tag, @optional, @recurse and a
+   coercion meets its hypotheses and returns rows *)
+Definition ff_world := ((re_table [] []), (mkDS [(1%N, "Leaf"); (2%N, "Gadget"); (3%N, "Gadget"); (4%N, "Leaf"); (5%N, "Box"); (6%N, "Gadget"); (7%N, "Gadget"); (8%N, "Leaf")] [(1%N, [("flag", (Boolv false)); ("id", (I64 1%Z)); ("label", (Str "ab")); ("leafy", (Str "")); ("name", (Str "a(")); ("nums", (List [Null; (I64 9223372036854775807%Z)])); ("ratio", (F64 9094988921128908188%N)); ("score", (I64 (-1)%Z)); ("tags", (List [(Str "ab")])); ("weight", (I64 (-1)%Z))]); (2%N, [("flag", (Boolv true)); ("id", (I64 2%Z)); ("name", (Str "A")); ("nums", (List [Null])); ("power", (I64 4%Z)); ("ratio", (F64 4611686018427387904%N)); ("score", (I64 5%Z)); ("tags", (List [(Str "a"); (Str "A"); (Str (sb [195;169]%N))]))]); (3%N, [("flag", (Boolv true)); ("id", (I64 3%Z)); ("name", (Str "a(")); ("nums", (List [(I64 (-9223372036854775808)%Z); (I64 (-9223372036854775808)%Z)])); ("power", (I64 9223372036854775807%Z)); ("ratio", (F64 4611686018427387904%N)); ("score", (U64 18446744073709551615%Z)); ("tags", (List [(Str "A")]))]); (4%N, [("flag", (Boolv false)); ("id", (I64 4%Z)); ("label", (Str (sb [195;169]%N))); ("leafy", (Str "a(")); ("nums", (List [Null; (I64 (-3)%Z); (I64 0%Z)])); ("ratio", (F64 4611686018427387904%N)); ("tags", (List [])); ("weight", (I64 (-9223372036854775808)%Z))]); (5%N, [("flag", (Boolv false)); ("id", (I64 5%Z)); ("label", (Str "b")); ("name", (Str "x y")); ("nums", (List [])); ("ratio", (F64 4611686018427387904%N)); ("score", (U64 9223372036854775808%Z)); ("tags", (List [(Str "a("); (Str ""); (Str "a(")])); ("weight", (I64 2%Z))]); (6%N, [("id", (U64 6%Z)); ("name", (Str "b")); ("nums", (List [(I64 (-9223372036854775808)%Z); (I64 9223372036854775807%Z); (I64 1%Z)])); ("power", (U64 18446744073709551615%Z)); ("ratio", (F64 4611686018427387904%N)); ("tags", (List [(Str "b"); (Str "A")]))]); (7%N, [("id", (I64 7%Z)); ("name", (Str "a")); ("nums", (List [(I64 2%Z)])); ("ratio", (F64 9094988921128908188%N)); ("tags", (List [(Str "abc")]))]); (8%N, [("flag", (Boolv false)); ("id", (I64 8%Z)); ("label", (Str "a")); ("leafy", (Str "a(")); ("name", (Str "a")); ("nums", (List [(U64 18446744073709551615%Z)])); ("ratio", (F64 9094988921128908188%N)); ("score", (I64 4%Z)); ("tags", (List [])); ("weight", (U64 3%Z))])] [(1%N, [("link", [1%N; 3%N]); ("next", [5%N]); ("parent", [3%N])]); (2%N, [("gears", [3%N; 2%N]); ("link", [7%N; 4%N; 8%N; 5%N]); ("next", [5%N]); ("parent", [3%N])]); (3%N, [("gears", [3%N; 7%N; 3%N; 6%N]); ("link", [7%N; 3%N; 4%N]); ("next", [1%N; 1%N; 7%N]); ("parent", [4%N])]); (4%N, [("link", [2%N]); ("parent", [4%N])]); (5%N, [("contains", [5%N]); ("inner", [5%N; 5%N; 5%N; 5%N]); ("link", [7%N; 3%N]); ("next", [2%N; 8%N]); ("peer", [5%N])]); (6%N, [("gears", [6%N]); ("link", [4%N; 1%N; 5%N; 3%N]); ("next", [2%N]); ("parent", [7%N])]); (7%N, [("link", [7%N; 6%N]); ("next", [3%N; 7%N; 6%N; 6%N])]); (8%N, [("next", [3%N; 6%N]); ("peer", [4%N])])] [("Box", [5%N]); ("Gadget", [2%N; 3%N; 6%N; 7%N]); ("Item", [1%N; 4%N; 5%N; 8%N]); ("Leaf", [1%N; 4%N; 8%N]); ("Thing", [8%N; 7%N; 6%N; 5%N; 4%N; 3%N; 2%N; 1%N])] [("Thing", ["Box"; "Leaf"; "Gadget"]); ("Item", ["Box"; "Leaf"]); ("Box", ["Box"]); ("Leaf", ["Leaf"]); ("Gadget", ["Gadget"])]), (mkRQ "Leaf" [("hi", (I64 1000%Z))] (RComp 1%N [(mkV 1%N "Leaf" None [(mkVF LessThanOrEqual "score" (mkTy "Int" 0%N) (Some (AVar "v1" (mkTy "Int" 1%N))))]); (mkV 2%N "Thing" None []); (mkV 3%N "Thing" None [(mkVF LessThan "id" (mkTy "Int" 1%N) (Some (ATag (FRContext (mkCF 1%N "score" (mkTy "Int" 0%N))))))]); (mkV 4%N "Thing" None [(mkVF GreaterThanOrEqual "ratio" (mkTy "Float" 0%N) (Some (AVar "v2" (mkTy "Float" 1%N))))]); (mkV 5%N "Leaf" (Some "Thing") [(mkVF LessThan "score" (mkTy "Int" 0%N) (Some (ATag (FRContext (mkCF 1%N "score" (mkTy "Int" 0%N))))))])] [(mkE 1%N 1%N 2%N "up" [("hi", (I64 500%Z))] true None); (mkE 2%N 2%N 3%N "link" [] false (Some (mkRec 1%N None))); (mkE 3%N 1%N 4%N "next" [("hi", Null); ("lo", Null)] true None); (mkE 4%N 4%N 5%N "next" [("hi", (I64 1000%Z)); ("lo", Null)] false None)] [] [("o1", (mkCF 1%N "__typename" (mkTy "String" 1%N))); ("o2", (mkCF 1%N "score" (mkTy "Int" 0%N))); ("o3", (mkCF 2%N "id" (mkTy "Int" 1%N))); ("o4", (mkCF 3%N "name" (mkTy "String" 0%N))); ("o5", (mkCF 4%N "ratio" (mkTy "Float" 0%N))); ("o6", (mkCF 4%N "flag" (mkTy "Boolean" 0%N))); ("o7", (mkCF 5%N "score" (mkTy "Int" 0%N)))]) [("v1", (mkTy "Int" 1%N)); ("v2", (mkTy "Float" 1%N))]), [("v1", (U64 9223372036854775808%Z)); ("v2", (F64 4611686018427387904%N))]).
+Example C01_fold_free_nonvacuous :
+  match lower_query (snd (fst ff_world)) with
+  | Ok q => edges_only (c_steps (q_comp q)) = true /\
+            match interpret (fst (fst (fst ff_world))) (graph_of_dataset (snd (fst (fst ff_world)))) (snd ff_world) q with
+            | Ok rows => Nat.ltb 1 (List.length rows) = true
+            | Panic _ => False
+            end
+  | Panic _ => False
+  end.
+Proof. vm_compute. split; reflexivity. Qed.
+Print Assumptions C01_fold_free_nonvacuous.
 
 (* non-vacuity / agreement on a concrete non-trivial world: fold-count filter against a tag, nested
    folds, @recurse(depth: 2) through a coercion, @optional, parameterised edges *)
